@@ -1,4 +1,5 @@
 import SpgProofs.Properties.C12
+import SpgProofs.Properties.C12b
 #print axioms Spg.C12.tokenizeGo_spec
 #print axioms Spg.C12.tokenize_no_panic
 #print axioms Spg.C12.slices_spec
@@ -12,3 +13,4 @@ import SpgProofs.Properties.C12
 #print axioms Spg.C12.tokenize_errors_full
 #print axioms Spg.C12.explode_partition
 #print axioms Spg.C12.tokenize_prefix_bytes
+#print axioms Spg.C12b.no_shared_scratch
